@@ -78,9 +78,11 @@ Cl_PPIdentity == (E.ev = "End" /\ E.outcome = "return" /\ O.mode \in {"press", "
                            FAdd(FAdd(O.pf[1], O.pf[2]), O.pperm))
 \* k*P: fluxes times k, same permeate composition (compared at rounding level when both runs took the same
 \* number of evaluations, i.e. no precision-threshold race)
-Cl_Homogeneous == (E.ev = "Twin") =>
-                       /\ E.outcome = Pre.outcome
-                       /\ (E.outcome = "return" /\ E.n = Pre.n /\ Fin2(E.J) /\ Fin2(Pre.J) /\ Fin2(Trace[l - 2].pp_mass)) =>
+Cl_Homogeneous == (E.ev = "Twin" /\ Pre.outcome = "return" /\ Pre.hasL /\ FLt(Pre.L, Lit("0.9"))) =>
+                       \* (where the map is not contractive the iteration is chaotic and amplifies the rounding
+                       \*  differences between the two runs; nothing is asserted there)
+                       /\ E.outcome = "return"
+                       /\ (E.n = Pre.n /\ Fin2(E.J) /\ Fin2(Pre.J) /\ Fin2(Trace[l - 2].pp_mass)) =>
                             \* rounding of y* (1 ulp) moves each flux by P_i |dpp_i/dy| ulp: measure against the
                             \* sum of all partial pressures involved, not against a possibly tiny flux
                             LET ptot == FAdd(FAdd(O.pf[1], O.pf[2]), FAdd(FAbs(Trace[l - 2].pp_mass[1]), FAbs(Trace[l - 2].pp_mass[2])))
